@@ -526,7 +526,10 @@ class HTMLSanitizer(object):
         def _repl(match):
             t = match.group(1)
             if t:
-                return six.unichr(int(t, 16))
+                code = int(t, 16)
+                if code > 0x10FFFF or 0xD800 <= code <= 0xDFFF:
+                    return u'\ufffd' # not a character
+                return six.unichr(code)
             t = match.group(2)
             if t == '\\':
                 return r'\\'
